@@ -188,26 +188,26 @@ func makeHTTPServerWithHeaderLimit(s *http.Server, group []*SiteConfig) *http.Se
 // SiteConfig in the group. (Timeouts are important for mitigating
 // slowloris attacks.)
 func makeHTTPServerWithTimeouts(addr string, group []*SiteConfig) *http.Server {
-	// find the minimum duration configured for each timeout
+	// find the strictest duration configured for each timeout
 	var min Timeouts
 	for _, cfg := range group {
 		if cfg.Timeouts.ReadTimeoutSet &&
-			(!min.ReadTimeoutSet || cfg.Timeouts.ReadTimeout < min.ReadTimeout) {
+			(!min.ReadTimeoutSet || stricterTimeout(cfg.Timeouts.ReadTimeout, min.ReadTimeout)) {
 			min.ReadTimeoutSet = true
 			min.ReadTimeout = cfg.Timeouts.ReadTimeout
 		}
 		if cfg.Timeouts.ReadHeaderTimeoutSet &&
-			(!min.ReadHeaderTimeoutSet || cfg.Timeouts.ReadHeaderTimeout < min.ReadHeaderTimeout) {
+			(!min.ReadHeaderTimeoutSet || stricterTimeout(cfg.Timeouts.ReadHeaderTimeout, min.ReadHeaderTimeout)) {
 			min.ReadHeaderTimeoutSet = true
 			min.ReadHeaderTimeout = cfg.Timeouts.ReadHeaderTimeout
 		}
 		if cfg.Timeouts.WriteTimeoutSet &&
-			(!min.WriteTimeoutSet || cfg.Timeouts.WriteTimeout < min.WriteTimeout) {
+			(!min.WriteTimeoutSet || stricterTimeout(cfg.Timeouts.WriteTimeout, min.WriteTimeout)) {
 			min.WriteTimeoutSet = true
 			min.WriteTimeout = cfg.Timeouts.WriteTimeout
 		}
 		if cfg.Timeouts.IdleTimeoutSet &&
-			(!min.IdleTimeoutSet || cfg.Timeouts.IdleTimeout < min.IdleTimeout) {
+			(!min.IdleTimeoutSet || stricterTimeout(cfg.Timeouts.IdleTimeout, min.IdleTimeout)) {
 			min.IdleTimeoutSet = true
 			min.IdleTimeout = cfg.Timeouts.IdleTimeout
 		}
@@ -235,6 +235,15 @@ func makeHTTPServerWithTimeouts(addr string, group []*SiteConfig) *http.Server {
 		WriteTimeout:      min.WriteTimeout,
 		IdleTimeout:       min.IdleTimeout,
 	}
+}
+
+// stricterTimeout reports whether timeout a is stricter than timeout b.
+// A zero timeout means no timeout at all, which is the least strict value.
+func stricterTimeout(a, b time.Duration) bool {
+	if a == 0 {
+		return false
+	}
+	return b == 0 || a < b
 }
 
 func (s *Server) wrapWithSvcHeaders(previousHandler http.Handler) http.HandlerFunc {
